@@ -79,6 +79,13 @@ def c17_race_run(ctx, tier, seed):
         shutil.rmtree(hb, ignore_errors=True)
 
 PROPS = {
+    "C06": {
+        "level_text": "Machine-checked theorems (Lean 4 kernel) about the word-level kernels of modnscalar.go as REGENERATED from /repo on every run (tools/gotr T1 -> Secp.Gen.ScalarIR, Go wrap-around semantics): the constantTime* helpers and accumulator96.Add/Rsh32 compute their specifications for all 32-bit operands (this pins the IR primitives to the helpers' own bodies); overflows = [value >= N]; reduce256; SetBytes reduces once, is canonical and reports overflow iff >= N; PutBytes is the big-endian value; Add2/NegateVal of canonical scalars are canonical and exact mod N (negating zero gives zero); IsOverHalfOrder iff > (N-1)/2; the 385- and 512-bit reductions and Mul2 are exact mod N and canonical for ALL 256-bit operands - including the third-fold carry that random tests hit with probability 2^-127. No-wrap of every intermediate is a reflective interval analysis decided by `decide +kernel` on the regenerated program; congruences by phased omega. Inversion is modelled as Fermat (ninv) and proved to be the inverse. Each regenerated kernel is also executed on raw words (boundary word classes, values near N, 2^256-N, N/2) and diffed against the real function.",
+        "level_note": "Trusted: Lean kernel; tools/gotr T1 (regenerated every run and executed against the real kernels); Go integer semantics; math/big.ModInverse for InverseValNonConst (the model uses Fermat). reduce385 is proved on its documented domain (a 385-bit value): the statement for arbitrary 13 words is false and is recorded in DESIGN.md.",
+        "technique": "Lean 4 proof about regenerated deep-embedded kernels (reflective interval analysis + omega congruences) + raw-word differential run",
+        "trusted_base": COMMON_TRUST + ["tools/gotr T1 translation (regenerated every run, executed against the real kernels)", "math/big.ModInverse"],
+        "assumptions": ["Add2/NegateVal operands canonical (their callers' invariant, itself a theorem: every operation returns a canonical value)"],
+    },
     "C01": {
         "level_text": "Theorems (Lean 4 kernel) about a model of sign/signRFC6979 whose point arithmetic is the regenerated formula programs: with a given nonce the model returns exactly the FIPS 186 signature (r = x(kG) mod N, s = k^-1(e + r d)) with s normalised into the lower half and the recovery code (parity of y, x >= N) adjusted for the flip; the deterministic signer is the first index of the RFC 6979 HMAC-SHA256 candidate stream whose signature exists; r, s non-zero, s <= (N-1)/2, code < 4; the hash is read as its first 32 bytes reduced mod N. These are conditional on PointSpec (the C03/C04 layer). Correspondence: every generated (key, hash) - all hash lengths 0..70, e >= N, all-zero/all-one, keys 1 and N-1, forced nonces through the sign hook incl. s = 0 - is signed by the real code twice around unrelated calls in all five encodings (object, DER, compact x2, crypto.Signer x2) and compared byte for byte with the model and with an independent textbook ECDSA + RFC 6979 + SHA-256 written in Lean, whose result is additionally verified by the textbook verifier.",
         "level_note": "Conditional on PointSpec (see trusted base); HMAC-SHA256/SHA-256 are modelled in Lean and diffed against crypto/sha256 through every signature; termination of the retry loop is by fuel (a signature exists at index 0 with probability 1-2^-250).",
